@@ -35,8 +35,8 @@ EXTRA = {
         "which sources) is observed per step and fed to the model; the theorems quantify over all such observations",
         "dtype equality implies equal dtype.kind (numpy/pandas law; checked on every pair of dtypes observed in a history)",
         "column names are strings (histories that produce other labels, e.g. transpose, are cut at that point)",
-        "tables with zero rows (or zero columns: df.empty) are outside the statement: new columns of an empty frame "
-        "are not registered (modelled and compared, not claimed)",
+        "tables with zero rows are outside the statement: new columns of a frame without rows are not registered "
+        "(modelled and compared, not claimed); a frame with rows that has lost all its columns is inside (zero units)",
         "a consultation may refuse the table (ColumnUnitException, InvalidNamingError for duplicate names, ValueError "
         "for a dtype kind without a StarTable unit): no unit list is reported then, which the statement allows",
     ],
@@ -701,6 +701,16 @@ def op_df_loc_append(ctx):
     return inplace(ctx, f, f"df.loc[{label}]=row(foreign={foreign})")
 
 
+def op_df_del_all(ctx):
+    """delete every column in place: the frame keeps its rows (index) but has no columns any more"""
+    ctx.assigned = {}
+
+    def f(df):
+        for c in list(dict.fromkeys(df.columns)):
+            del df[c]
+    return inplace(ctx, f, "del every column (rows stay)")
+
+
 def op_df_drop_rows(ctx):
     return inplace(ctx, lambda df: df.drop(index=df.index, inplace=True), "df.drop(all rows,inplace)")
 
@@ -985,7 +995,7 @@ OPS = {
     "df_setcols": (op_df_setcols, 3), "df_move": (op_df_move, 5), "df_sortcols": (op_df_sortcols_inplace, 2),
     "df_assign": (op_df_assign, 6), "df_astype": (op_df_astype, 4), "df_loc_append": (op_df_loc_append, 4),
     "df_drop_rows": (op_df_drop_rows, 2), "df_dropcols": (op_df_drop_cols_inplace, 2), "df_setcell": (op_df_setcell, 2),
-    "df_fillna_inplace": (op_df_fillna_inplace, 1), "df_restore": (op_df_restore, 5),
+    "df_fillna_inplace": (op_df_fillna_inplace, 1), "df_restore": (op_df_restore, 5), "df_del_all": (op_df_del_all, 2),
     "select": (op_select, 6), "copy": (op_copy, 3), "sort_index": (op_sort_index, 3), "reindex": (op_reindex, 4),
     "concat": (op_concat, 6), "merge": (op_merge, 5), "assign": (op_assign, 4), "drop": (op_drop, 3),
     "astype": (op_astype, 4), "fillna": (op_fillna, 2), "replace": (op_replace, 2), "rename": (op_rename, 3),
@@ -995,7 +1005,7 @@ OPS = {
 C15_WEIGHTS = {
     "add_column": 8, "setitem": 8, "set_units": 5, "set_col_unit": 5, "set_all_units": 1, "rewrap": 6,
     "df_assign": 10, "df_astype": 10, "df_loc_append": 10, "df_drop_rows": 5, "df_setcell": 6, "df_fillna_inplace": 3,
-    "df_insert": 3, "df_del": 2, "df_rename": 1, "df_move": 1, "df_restore": 6, "df_setcols": 2, "copy": 5, "astype": 8, "fillna": 6, "replace": 5,
+    "df_insert": 3, "df_del": 2, "df_rename": 1, "df_move": 1, "df_restore": 6, "df_setcols": 2, "df_del_all": 1, "copy": 5, "astype": 8, "fillna": 6, "replace": 5,
     "rows": 6, "concat": 4, "merge": 2, "assign": 3, "select": 2, "reindex": 2,
 }
 
@@ -1117,8 +1127,9 @@ def oracle_c04(ctx, t, units, ures, lookups, it, wr):
             _fail(ctx, "consultation crashed instead of reporting units or refusing the table", ures, "units or a refusal",
                   "C04:consult-crash:" + ures["exc"])
         return
-    if len(df) < 1 or df.empty:
+    if len(df) < 1:
         return                                   # statement: tables with at least one row
+    # a frame that has rows but has lost all its columns is inside the statement: zero columns, zero units
     if len(units) != len(names):
         return _fail(ctx, "number of units differs from number of dataframe columns",
                      {"columns": names, "units": units}, "one unit per column", "C04:unit-count")
@@ -1148,6 +1159,9 @@ def oracle_c04(ctx, t, units, ures, lookups, it, wr):
     if "exc" in csv:
         out.count("csv_value_error:" + csv["exc"])            # cell formatting problems are not C04's subject
     else:
+        if not names and (csv["names"] != [""] or csv["units"] != [""]):
+            return _fail(ctx, "write_csv emits names or units for a table without columns",
+                         {"names": csv["names"], "units": csv["units"]}, {"names": [""], "units": [""]}, "C04:csv-pairing")
         if names and (csv["names"] != [str(n) for n in names] or csv["units"] != own):
             return _fail(ctx, "write_csv pairs column names with other columns' units",
                          {"names": csv["names"], "units": csv["units"]}, {"names": names, "units": own}, "C04:csv-pairing")
@@ -1328,7 +1342,7 @@ def function_level(out, rng, n):
 
 SCRIPT_ALPHABET = ["add_column", "setitem", "set_col_unit", "df_insert", "df_del", "df_rename", "df_move",
                    "df_assign", "df_astype", "df_loc_append", "df_drop_rows", "select", "copy", "sort_index",
-                   "reindex", "concat", "merge", "assign", "drop", "astype", "rows", "rewrap"]
+                   "reindex", "concat", "merge", "assign", "drop", "astype", "rows", "rewrap", "df_del_all"]
 EX_PLAN = (["a", "b", "c"], ["f", "s", "b"], 2, "good", True)
 # second enumeration, aimed at the remembered-state short cut: emptiness transitions around type-changing edits
 E_ALPHABET = ["df_drop_rows", "df_loc_append", "df_insert!", "df_assign!", "setitem!", "add_column!", "df_astype",
@@ -1367,12 +1381,12 @@ def run(tier, seed, model_ok, translator, search=False, prop="C04", weights=None
     out = Outcome()
     out.rule = ("operation histories on real Tables: random start table (0-4 columns of 16 value kinds, 0-3 rows, units "
                 "right / wrong / short / long / unit_map / absent, strict_types on/off) followed by random operations from an "
-                "alphabet of 35 (facade add_column/__setitem__/unit setters/re-wrap; in-place dataframe insert, del, rename, "
+                "alphabet of 37 (facade add_column/__setitem__/unit setters/re-wrap; in-place dataframe insert, del, rename, "
                 "relabel, move, sort, assign, astype, loc row append, drop rows/columns, cell assignment, fillna; pandas "
                 "select, copy, sort_index, reindex, concat both axes, merge, assign, drop, astype, fillna, replace, rename, "
                 "row selections incl. empty, set_axis, iloc); after every operation the table is consulted (units, per-column "
                 "lookup, iteration, writers) and compared with the model step by step; bounded-exhaustive scripts over a "
-                "22-operation alphabet from a fixed 3-column table and over an 8-operation alphabet around emptiness "
+                "23-operation alphabet from a fixed 3-column table and over an 8-operation alphabet around emptiness "
                 "transitions. Non-trivial: history with >= 1 successful consultation of "
                 "a table with rows after an operation; distinct by (start table, operation descriptions).")
     thorough = tier == "thorough"
